@@ -4,6 +4,7 @@ package core
 
 import (
 	"context"
+	"encoding/json"
 
 	"github.com/Comcast/sheens/match"
 	"github.com/Comcast/sheens/zzverif/verif"
@@ -282,4 +283,72 @@ func VerifC13Sources() {
 		verif.Assert("source-compiled-by-its-interpreter", verif.JSONEqual(end.Bs["compiledBy"], second))
 	}
 	verif.Reach("sources-done")
+}
+
+// ---- a compiled specification, serialised and reloaded ----
+
+// VerifC13Reload: a specification is compiled, written out as JSON (json.Marshal of the Spec value, as a
+// host or a tool would store it) and read back into a fresh Spec, which is compiled again: the reloaded
+// specification has the same patterns, branching types and error settings and behaves the same on a
+// message.  Patterns of every JSON shape (bare strings and bare variables included), written inline or as
+// JSON text under the "json" pattern syntax; with and without action / guard sources.
+func VerifC13Reload() {
+	verif.MapOrderInsertion(true)
+	x := c13Pattern()
+	var s *Spec
+	if verif.Choose("syntax", 2) == 0 {
+		s = c13Spec("", x, map[string]interface{}{"k": "?v"})
+	} else {
+		s = c13Spec("json", verif.JSONText(x), `{"k":"?v"}`)
+	}
+	if verif.Choose("sources", 2) == 1 {
+		s.Nodes["other"].ActionSource = &ActionSource{Interpreter: "stub", Source: "a"}
+		s.Nodes["other"].Branches.Type = "bindings"
+		s.Nodes["start"].Branches.Branches[0].GuardSource = &ActionSource{Interpreter: "stub", Source: "g"}
+	}
+	if verif.Choose("errorSettings", 2) == 1 {
+		s.ActionErrorBranches = true
+		s.ActionErrorNode = "other"
+	}
+	interps := InterpretersMap{"stub": &verifInterp{}}
+	ctx := context.Background()
+	if s.Compile(ctx, interps, false) != nil {
+		verif.Note("rejected")
+		return
+	}
+	js, err := json.Marshal(s)
+	verif.Assert("compiled-spec-serialisable", err == nil)
+	if err != nil {
+		return
+	}
+	back := &Spec{}
+	verif.Assert("serialised-spec-decodable", json.Unmarshal(js, back) == nil)
+	verif.Assert("reloaded-spec-compiles", back.Compile(ctx, interps, false) == nil)
+	if back.Nodes["start"] == nil || back.Nodes["other"] == nil || back.Nodes["start"].Branches == nil || back.Nodes["other"].Branches == nil {
+		verif.Assert("reloaded-spec-has-the-nodes", false)
+		return
+	}
+	verif.Reach("reloaded")
+	p1 := s.Nodes["start"].Branches.Branches[0].Pattern
+	p2 := back.Nodes["start"].Branches.Branches[0].Pattern
+	verif.Assert("reload-keeps-pattern", verif.JSONEqual(p1, p2))
+	verif.Assert("reload-keeps-pattern-2", verif.JSONEqual(s.Nodes["other"].Branches.Branches[0].Pattern, back.Nodes["other"].Branches.Branches[0].Pattern))
+	verif.Assert("reload-keeps-branching-type", s.Nodes["start"].Branches.Type == back.Nodes["start"].Branches.Type && s.Nodes["other"].Branches.Type == back.Nodes["other"].Branches.Type)
+	verif.Assert("reload-keeps-error-settings", s.ActionErrorBranches == back.ActionErrorBranches && s.ActionErrorNode == back.ActionErrorNode && s.ErrorNode == back.ErrorNode)
+	verif.Assert("reload-keeps-node-set", len(s.Nodes) == len(back.Nodes))
+	verif.Assert("reload-compiles-sources", (s.Nodes["other"].Action == nil) == (back.Nodes["other"].Action == nil) &&
+		(s.Nodes["start"].Branches.Branches[0].Guard == nil) == (back.Nodes["start"].Branches.Branches[0].Guard == nil))
+	msg := verif.AnyJSON("msg", verif.Opts{Depth: 1, Width: 1, Finite: true, NoVar: true, NoVarKeys: true})
+	st := &State{NodeName: "start", Bs: match.NewBindings()}
+	w1, _ := s.Walk(ctx, st, []interface{}{msg}, nil, nil)
+	w2, _ := back.Walk(ctx, st.Copy(), []interface{}{msg}, nil, nil)
+	verif.Assert("walks-return", w1 != nil && w2 != nil)
+	if w1 != nil && w2 != nil {
+		t1, t2 := w1.To(), w2.To()
+		verif.Assert("reload-same-movement", (t1 == nil) == (t2 == nil))
+		if t1 != nil && t2 != nil {
+			verif.Assert("reload-same-node", t1.NodeName == t2.NodeName)
+			verif.Assert("reload-same-bindings", verif.JSONEqual(map[string]interface{}(t1.Bs), map[string]interface{}(t2.Bs)))
+		}
+	}
 }
